@@ -174,7 +174,7 @@ CHECKS["C05"] = NS(
         "steps whose float counterpart raises are discarded (float-invalid program), and view() must also be valid on a float twin with the size/stride the wrapper reports",
         "whether a result is still quantized is never asserted: falling back to float is always allowed",
     ],
-    PLAN={"quick": [("program", 16, {"n": 1200, "max_steps": 8})], "thorough": [("program", 16, {"n": 12000, "max_steps": 12})]},
+    PLAN={"quick": [("alias", 4, {}), ("program", 12, {"n": 1600, "max_steps": 8})], "thorough": [("alias", 4, {}), ("program", 16, {"n": 12000, "max_steps": 12})]},
 )
 
 CHECKS["C06"] = NS(
